@@ -6,10 +6,10 @@ package main
 //     against "floor(hundredths of a minute * 0.6) seconds", 600000-999999 for crash freedom.
 // (b) full product: entity kind {trip update, vehicle position} x is_assigned {-,false,true}
 //     x direction {-,N,E,S,W} x train id {-,x} x pre-existing vehicle descriptor {-,yes} x
-//     trip id {NYCT format, other} x per-stop tracks {no ext, scheduled, actual, both, neither}
+//     trip id {NYCT format, other} x per-stop tracks {no ext, scheduled, actual, both, neither, actual present but empty, scheduled empty}
 //     x first-stop times {none, dep <,=,> ts, arr only <,=,>, dep 0 with arr, dep without time + arr >,< ts, events without any time} x stop-time count
 //     {0,1,2} x the 4 option combinations.
-// (c) transparency: feeds without NYCT data - route in {M, J, -} x two stop ids over a
+// (b') two or three assigned trips sharing one train id (trip updates and a vehicle position, both orders, 4 options); (c) transparency: feeds without NYCT data - route in {M, J, -} x two stop ids over a
 //     12-value alphabet x options, and the rich C02 feed within 1 deviation x options - parse
 //     exactly as with no extension, modulo an independently written N<->S swap; involution:
 //     P_fix(swap(F)) == P_preserve(F).
@@ -122,7 +122,7 @@ func genC16(c *Ctx) *c16Case {
 		k.msg = m
 		return k
 	}
-	k.tracks = c.Free("tracks", 5)
+	k.tracks = c.Free("tracks", 7)
 	k.firstTimes = c.Free("first_stop_times", 11)
 	k.nStops = c.Free("stop_time_updates", 3)
 	tu := &gtfsrt.TripUpdate{Trip: td, Vehicle: pre}
@@ -166,6 +166,13 @@ func genC16(c *Ctx) *c16Case {
 			}
 			if k.tracks == 2 || k.tracks == 3 {
 				x.ActualTrack = sp(fmt.Sprintf("A%d", j))
+			}
+			if k.tracks == 5 { // the actual track is present and empty, the scheduled one is not
+				x.ScheduledTrack = sp(fmt.Sprintf("S%d", j))
+				x.ActualTrack = sp("")
+			}
+			if k.tracks == 6 { // only a scheduled track, and it is empty
+				x.ScheduledTrack = sp("")
 			}
 			proto.SetExtension(u, gtfsrt.E_NyctStopTimeUpdate, x)
 		}
@@ -283,6 +290,8 @@ func c16Rules(c *Ctx) {
 				want = fmt.Sprintf("%q", fmt.Sprintf("S%d", j))
 			case 2, 3:
 				want = fmt.Sprintf("%q", fmt.Sprintf("A%d", j))
+			case 5, 6:
+				want = `""`
 			}
 			if got := fmtStrPtr(t.StopTimeUpdates[j].NyctTrack); got != want {
 				c.Fail("nyct:track", "%s: stop %d track %s, want %s", k, j, got, want)
@@ -292,6 +301,60 @@ func c16Rules(c *Ctx) {
 			}
 		}
 	}
+}
+
+// c16SharedTrain: two (or three) different assigned trips carry the same train id (a train's
+// current trip and its next one): each of them is linked to the vehicle with that id.
+func c16SharedTrain(c *Ctx) {
+	n := 2 + c.Free("trips_with_the_train_id", 2)
+	opts := nyctOptCombos[c.Free("options", 4)]
+	kind := c.Free("second_entity_kind", 2) // the last trip comes as a trip update or as a vehicle position
+	ts := uint64(1700000000)
+	m := newFeed(&ts)
+	train := "06 0331+ PEL/BBR"
+	var ids []string
+	for i := 0; i < n; i++ {
+		id := fmt.Sprintf("0%d3100_6..N03R", i+1)
+		ids = append(ids, id)
+		td := &gtfsrt.TripDescriptor{TripId: &id, RouteId: sp("6")}
+		assigned := true
+		proto.SetExtension(td, gtfsrt.E_NyctTripDescriptor, &gtfsrt.NyctTripDescriptor{TrainId: &train, IsAssigned: &assigned, Direction: gtfsrt.NyctTripDescriptor_NORTH.Enum()})
+		if i == n-1 && kind == 1 {
+			m.Entity = append(m.Entity, &gtfsrt.FeedEntity{Id: sp(fmt.Sprintf("e%d", i)), Vehicle: &gtfsrt.VehiclePosition{Trip: td, StopId: sp("601N")}})
+		} else {
+			m.Entity = append(m.Entity, &gtfsrt.FeedEntity{Id: sp(fmt.Sprintf("e%d", i)), TripUpdate: &gtfsrt.TripUpdate{Trip: td,
+				StopTimeUpdate: []*gtfsrt.TripUpdate_StopTimeUpdate{{StopId: sp("601N"), Departure: &gtfsrt.TripUpdate_StopTimeEvent{Time: cp2(int64(ts) + 60)}}}}})
+		}
+	}
+	if c.Free("order_reversed", 2) == 1 {
+		for i, j := 0, len(m.Entity)-1; i < j; i, j = i+1, j-1 {
+			m.Entity[i], m.Entity[j] = m.Entity[j], m.Entity[i]
+		}
+	}
+	b := marshalFeed(m)
+	desc := fmt.Sprintf("%d assigned trips %v with train id %q, options %s", n, ids, train, nyctOptName(opts))
+	c.Input(hash64(string(b)+nyctOptName(opts)), true, func() string { return desc + "\n" + feedText(m) })
+	r, err, ok := parseRT(c, b, &gtfs.ParseRealtimeOptions{Extension: nycttrips.Extension(opts)})
+	if !ok {
+		return
+	}
+	c.Steps(n)
+	if err != nil {
+		c.Fail("valid-message-rejected", "%v", err)
+		return
+	}
+	c.Outcome(dumpRealtime(r, rtDumpOpts{links: true, sortVehicles: true}))
+	if len(r.Trips) != n {
+		c.Fail("nyct:trip-count", "%s: %d trips", desc, len(r.Trips))
+		return
+	}
+	for i := range r.Trips {
+		t := &r.Trips[i]
+		if t.Vehicle == nil || t.Vehicle.ID == nil || t.Vehicle.ID.ID != train {
+			c.Fail("nyct:assigned-vehicle", "%s: assigned trip %s is linked to vehicle %s, want the vehicle whose id is the train id", desc, t.ID.ID, dumpVehicleID(t.GetVehicle().ID))
+		}
+	}
+	c.Witness("train_id_shared_by_assigned_trips")
 }
 
 var mStopAlphabet = []string{"M11N", "M11S", "M16S", "M18N", "M19N", "M15N", "M11", "M11NN", "A11N", "", "<absent>", "M11X", "M14S", "M12N", "M13S"}
@@ -420,6 +483,7 @@ func init() {
 			return []*Scenario{
 				{Name: "origin-times", Bound: -1, Run: c16Origin},
 				{Name: "rules-product", Bound: -1, Run: c16Rules},
+				{Name: "shared-train-id", Bound: -1, Run: c16SharedTrain},
 				{Name: "m-train-transparency", Bound: -1, Run: c16MTrain},
 				{Name: "plain-feeds", Bound: k, Run: c16PlainFeeds},
 			}
